@@ -1,4 +1,27 @@
+//! vf-ffi — property C45 (components passed through the foreign-function interface behave as native).
+//! Sub-commands: `c45a` scalar UDFs, `c45b` aggregate + window UDFs, `c45c` table providers / table
+//! functions / execution plans / record batch streams under generated SQL.
+mod c45a;
+mod c45b;
+mod c45c;
+mod c45w;
+mod fx;
+mod vals;
+
+/// The marker every `FFI_*` struct of datafusion-ffi carries is the address of a static inside that crate.
+/// Any other address makes `Foreign*::from` treat the struct as coming from another library.
+pub extern "C" fn harness_marker() -> usize {
+    static HARNESS_MARKER: u8 = 0;
+    std::ptr::from_ref::<u8>(&HARNESS_MARKER) as usize
+}
+
+pub const FOREIGN_MARKER_NOTE: &str = "same technique as datafusion-ffi's own unit tests (mock_foreign_marker_id)";
+
 fn main() {
-    eprintln!("no sub-commands yet");
-    std::process::exit(2);
+    vf_kit::dispatch! {
+        "c45a" => c45a::C45a,
+        "c45b" => c45b::C45b,
+        "c45w" => c45w::C45w,
+        "c45c" => c45c::C45c,
+    }
 }
